@@ -16,11 +16,11 @@ def GuideOf (l g : Line) : Prop :=
   (Blank l ∧ OnlyGuide g) ∨
   (¬ Blank l ∧ g.length = l.length ∧ g.drop (leadSpaces l) = l.drop (leadSpaces l) ∧ OnlyGuide (g.take (leadSpaces l)))
 
-/-- The relation between the lines handed to `indentGuides` and the lines it returns. -/
+/-- The relation between the lines handed to `indentGuides` and the lines it returns (repaired variant):
+as many lines, each showing the line at the same position. -/
 structure GuideRel (lines out : List Line) : Prop where
-  length_le : out.length ≤ max 1 lines.length
+  length_eq : out.length = lines.length
   shown : ∀ i (ho : i < out.length) (hl : i < lines.length), GuideOf lines[i] out[i]
-  dropped : ∀ i (_ : out.length ≤ i) (hl : i < lines.length), Blank lines[i]
 
 theorem leadSpaces_le (l : Line) : leadSpaces l ≤ l.length := by
   unfold leadSpaces; exact (List.takeWhile_prefix _).length_le
@@ -192,80 +192,49 @@ theorem popBlank_prefix (X : List Line) : popBlank X <+: X := by
 
 theorem blank_nil : Blank [] := by simp [Blank]
 
-/-- `Syntax.__rich_console__`'s indent-guide step, for `tab_size ≥ 1`: never an error, never a new or moved
-line; only leading spaces are overdrawn and only blank lines at the end can disappear. -/
+/-- `Text("\n").join(Z).split("\n", allow_blank=True)` gives `Z` back -/
+theorem textSplit_allow_joinNL (Z : List Line) (hne : Z ≠ []) (hZ : ∀ l ∈ Z, '\n' ∉ l) :
+    textSplit (joinNL Z) true = Z := by
+  have := textSplit_allow_unlinesT Z hne hZ
+  rwa [unlinesT_eq_joinNL Z hne, removeSuffixNL_append_nl] at this
+
+/-- `(Text("\n").join(X) + "\n")` split without `allow_blank` (inside `with_indent_guides`) gives `X` back -/
+theorem textSplit_joinNL_nl (X : List Line) (hne : X ≠ []) (hX : ∀ l ∈ X, '\n' ∉ l) :
+    textSplit (joinNL X ++ ['\n']) false = X := by
+  rw [← unlinesT_eq_joinNL X hne]
+  unfold textSplit
+  have h1 := splitNL_unlinesT_append X [] hX (by simp)
+  rw [List.append_nil] at h1
+  have h2 : endsNL (unlinesT X) = true := by
+    rw [unlinesT_eq_joinNL X hne, endsNL_append_singleton]; rfl
+  simp [h1, h2]
+
+/-- `Syntax.__rich_console__`'s indent-guide step (repaired variant), for `tab_size ≥ 1`: never an error, as many
+lines out as in, each at its place; only leading spaces are overdrawn.  An empty selection stays empty. -/
 theorem indentGuides_spec (ts : Nat) (hts : 1 ≤ ts) (lines : List Line) (hno : ∀ l ∈ lines, '\n' ∉ l) :
-    ∃ out, indentGuides ts lines = .ok out ∧ GuideRel lines out := by
+    ∃ out, indentGuides false ts lines = .ok out ∧ GuideRel lines out := by
   unfold indentGuides
-  rw [textSplit_joinNL lines hno]
+  simp only [Bool.false_eq_true, if_false]
   by_cases h0 : lines = []
   · subst h0
-    refine ⟨[[]], by simp [guideLoop, leadSpaces, textSplit, joinNL], ⟨by simp, fun i _ hl => by simp at hl, fun i _ hl => by simp at hl⟩⟩
-  · simp only [h0, if_false]
-    have hY := popBlank_noNL hno
-    obtain ⟨Z, hZ, hlen, hnl, _, hrel, hlast⟩ := guideLoop_spec ts hts (popBlank lines) 0 hY
-    have hYne : popBlank lines ≠ [] := by
-      unfold popBlank; split
-      · rename_i h; intro e
-        have : lines.length - 1 = 0 := by simpa using congrArg List.length e
-        omega
-      · exact h0
+    exact ⟨[], by simp, ⟨rfl, fun i ho _ => by simp at ho⟩⟩
+  · have hemp : lines.isEmpty = false := by
+      cases lines with
+      | nil => exact absurd rfl h0
+      | cons _ _ => rfl
+    simp only [hemp, Bool.false_eq_true, if_false]
+    rw [textSplit_joinNL_nl lines h0 hno]
+    obtain ⟨Z, hZ, hlen, hnl, _, hrel, _⟩ := guideLoop_spec ts hts lines 0 hno
+    have hlen' : Z.length = lines.length := by simpa using hlen
     have hZne : Z ≠ [] := by
       intro e; subst e
-      have : (popBlank lines).length = 0 := by simpa using hlen.symm
-      exact hYne (List.length_eq_zero_iff.mp this)
+      exact h0 (List.length_eq_zero_iff.mp (by simpa using hlen'.symm))
     rw [hZ]
-    simp only [textSplit_joinNL Z hnl, hZne, if_false]
-    refine ⟨popBlank Z, rfl, ?_, ?_, ?_⟩
-    · have h1 := (popBlank_prefix Z).length_le
-      have h2 := (popBlank_prefix lines).length_le
-      omega
-    · intro i ho hl
-      have hz : i < Z.length := Nat.lt_of_lt_of_le ho (popBlank_prefix Z).length_le
-      have hy : i < (popBlank lines).length := by omega
-      have e1 : (popBlank Z)[i] = Z[i] := (popBlank_prefix Z).getElem ho
-      have e2 : (popBlank lines)[i] = lines[i] := (popBlank_prefix lines).getElem hy
-      rw [e1, ← e2]
-      obtain ⟨z, hz', hg⟩ := hrel i _ (List.getElem?_eq_getElem hy)
-      rw [Nat.zero_add, List.getElem?_eq_getElem hz] at hz'
-      rw [Option.some.inj hz']; exact hg
-    · intro i hi hl
-      by_cases hy : i < (popBlank lines).length
-      · -- the line went through the loop and was removed by the last split: it became the empty last line
-        have hz : i < Z.length := by omega
-        have e2 : (popBlank lines)[i] = lines[i] := (popBlank_prefix lines).getElem hy
-        obtain ⟨z, hz', hg⟩ := hrel i _ (List.getElem?_eq_getElem hy)
-        rw [Nat.zero_add, List.getElem?_eq_getElem hz] at hz'
-        have hzz : Z[i] = z := Option.some.inj hz'
-        subst hzz
-        have hzi : Z[i] = [] := by
-          -- popBlank Z is shorter than Z: Z's last line is empty, and i is that last index
-          unfold popBlank at hi
-          split at hi
-          · rename_i hc
-            have hlen' : i = Z.length - 1 := by simp at hi; omega
-            have := hc.2
-            rw [List.getLast?_eq_getElem?] at this
-            subst hlen'
-            rw [List.getElem?_eq_getElem (by omega)] at this
-            exact Option.some.inj this
-          · omega
-        rw [← e2]
-        rcases hg with ⟨hb, _⟩ | ⟨_, hlen2, _, _⟩
-        · exact hb
-        · rw [hzi] at hlen2
-          have : (popBlank lines)[i] = [] := List.length_eq_zero_iff.mp (by simpa using hlen2.symm)
-          rw [this]; exact blank_nil
-      · -- the line was the empty last line removed by the first split
-        unfold popBlank at hy
-        split at hy
-        · rename_i hc
-          have hlen' : i = lines.length - 1 := by simp at hy; omega
-          have := hc.2
-          rw [List.getLast?_eq_getElem?] at this
-          subst hlen'
-          rw [List.getElem?_eq_getElem (by omega)] at this
-          rw [Option.some.inj this]; exact blank_nil
-        · omega
+    simp only [textSplit_allow_joinNL Z hZne hnl]
+    refine ⟨Z, rfl, hlen', ?_⟩
+    intro i ho hl
+    obtain ⟨z, hz', hg⟩ := hrel i _ (List.getElem?_eq_getElem hl)
+    rw [Nat.zero_add, List.getElem?_eq_getElem ho] at hz'
+    rw [Option.some.inj hz']; exact hg
 
 end RichModel.Syntax
